@@ -246,4 +246,243 @@ theorem cost_destroy_run (c : Nat → Nat) (p : Params) (cur : List Dim) :
   rw [cost_destroyFrees_bytes] at h2
   exact ⟨h1, by omega, h3⟩
 
+/-! ## bounding what an arena uses -/
+
+/-- How much more than requested an arena with cost function `c` may use for a block: `e16` for the 16-byte pointer
+    pair of an auxiliary entry, `e1` for an arbitrary block, `e4` / `e8` for a block whose size is a multiple of 4 / 8. -/
+structure PadBound (c : Nat → Nat) (e16 e1 e4 e8 : Nat) : Prop where
+  p16 : c 16 ≤ 16 + e16
+  any : ∀ n, c n ≤ n + e1
+  m4 : ∀ k, c (k * 4) ≤ k * 4 + e4
+  m8 : ∀ k, c (k * 8) ≤ k * 8 + e8
+
+theorem auxBytesC_le {c : Nat → Nat} {e16 e1 e4 e8 : Nat} (hb : PadBound c e16 e1 e4 e8) (he : e16 + 2 * e1 ≤ 40)
+    (as : List AuxEntry) (h : ∀ a ∈ as, a.keylen + a.vallen ≤ 82) (hs : ∀ a ∈ as, a.storedlen ≤ a.vallen) :
+    auxBytesC c as ≤ 138 * as.length :=
+  sum_map_le as _ 138 (fun a ha => by
+    have := h a ha; have := hs a ha; have := hb.p16; have := hb.any a.keylen; have := hb.any a.storedlen; omega)
+
+theorem knotBytesC_le {c : Nat → Nat} {e16 e1 e4 e8 : Nat} (hb : PadBound c e16 e1 e4 e8) (ds : List Dim) :
+    knotBytesC c ds ≤ knotBytes ds + e8 * ds.length := by
+  induction ds with
+  | nil => simp [knotBytesC, knotBytes]
+  | cons d ds ih =>
+    have := hb.m8 (d.nknots + 2 * d.order)
+    simp only [knotBytesC, knotBytes, List.map_cons, List.sum_cons, List.length_cons, Nat.mul_succ] at *
+    omega
+
+theorem fixedBytesC_le {c : Nat → Nat} {e16 e1 e4 e8 : Nat} (hb : PadBound c e16 e1 e4 e8) (nd : Nat) :
+    fixedBytesC c nd ≤ 68 * nd + e4 + 7 * e8 := by
+  have := hb.m4 nd; have := hb.m8 nd; have := hb.m8 (2 * nd)
+  unfold fixedBytesC; omega
+
+theorem footprintC_le {c : Nat → Nat} {e16 e1 e4 e8 : Nat} (hb : PadBound c e16 e1 e4 e8) (he : e16 + 2 * e1 ≤ 40)
+    (p : Params) (h : ∀ a ∈ p.aux, a.keylen + a.vallen ≤ 82) (hs : ∀ a ∈ p.aux, a.storedlen ≤ a.vallen) (ds : List Dim) :
+    footprintC c p ds ≤
+      146 * p.aux.length + 68 * ds.length + 4 * prodNaxes ds + knotBytes ds + (8 * e8 + e8 * ds.length + 2 * e4) := by
+  have := auxBytesC_le hb he p.aux h hs
+  have := knotBytesC_le hb ds
+  have := fixedBytesC_le hb ds.length
+  have := hb.m8 p.aux.length
+  have := hb.m4 (prodNaxes ds)
+  unfold footprintC; omega
+
+/-- **Arena version of the main inequality.**  If the arena uses at most `e16`/`e1`/`e4`/`e8` bytes more than requested
+    per block (see `PadBound`) and these fit into what `estimateMemory` leaves over - 40 of the 146 bytes per card, and
+    1025 bytes in total for the nine fixed blocks and one knot vector per dimension - the arena never uses more than the
+    estimate. -/
+theorem cost_peak_le_estimate {c : Nat → Nat} {e16 e1 e4 e8 : Nat} (hb : PadBound c e16 e1 e4 e8) (p : Params)
+    (hn : 1 ≤ p.n) (card : ∀ a ∈ p.aux, a.keylen + a.vallen ≤ 82) (stored_le : ∀ a ∈ p.aux, a.storedlen ≤ a.vallen)
+    (hcons : ∀ d, p.dims[p.cdim]? = some d → d.naxes + d.order + 1 = d.nknots)
+    (h1 : e16 + 2 * e1 ≤ 40) (h3 : 8 * e8 + e8 * p.dims.length + 2 * e4 ≤ 1025) :
+    balanced 0 (costEvents c (readEvents p ++ convolveEvents p)) = true ∧
+    p.objsize + peak (costEvents c (readEvents p ++ convolveEvents p)) ≤ estimate p := by
+  obtain ⟨hbal, hp, _⟩ := cost_read_convolve_run c p (82 + e1)
+    (fun a ha => by have := card a ha; have := hb.any a.vallen; omega)
+  refine ⟨hbal, ?_⟩
+  have hest := estimateWith_ge (nauxCounted p.aux.length p.nauxKnotsHdu) p
+  rw [estDims_eq_convDims p hn] at hest
+  have hk : knotBytes p.dims ≤ knotBytes (convDims p) :=
+    knotBytes_adjustAt_ge _ (convDim_knots_ge p.n hn) _ _
+  have hc : prodNaxes p.dims ≤ prodNaxes (convDims p) :=
+    prodNaxes_adjustAt_ge _ _ _ (fun d hd => convDim_naxes_ge p.n hn d (hcons d hd))
+  have f1 := footprintC_le hb h1 p card stored_le p.dims
+  have f2 := footprintC_le hb h1 p card stored_le (convDims p)
+  rw [convDims_length] at f2
+  have := auxBytesC_le hb h1 p.aux card stored_le
+  have := hb.m8 p.aux.length
+  simp only [estimate, nauxCounted] at *
+  omega
+
+/-! ## alignment -/
+
+theorem dvd16_cases (A : Nat) (h : A ∣ 16) : A = 1 ∨ A = 2 ∨ A = 4 ∨ A = 8 ∨ A = 16 := by
+  have hle : A ≤ 16 := Nat.le_of_dvd (by decide) h
+  have key : ∀ A, A ≤ 16 → A ∣ 16 → (A = 1 ∨ A = 2 ∨ A = 4 ∨ A = 8 ∨ A = 16) := by decide
+  exact key A hle h
+
+theorem dvd8_cases (A : Nat) (h : A ∣ 8) : A = 1 ∨ A = 2 ∨ A = 4 ∨ A = 8 := by
+  have hle : A ≤ 8 := Nat.le_of_dvd (by decide) h
+  have key : ∀ A, A ≤ 8 → A ∣ 8 → (A = 1 ∨ A = 2 ∨ A = 4 ∨ A = 8) := by decide
+  exact key A hle h
+
+/-- blocks aligned to 1, 2, 4 or 8 bytes: only the `uint32_t`/`float` arrays and the strings are padded -/
+theorem padBound_align8 (A : Nat) (h : A ∣ 8) : PadBound (alignUp A) 0 7 4 0 := by
+  rcases dvd8_cases A h with rfl | rfl | rfl | rfl <;>
+    exact ⟨by simp only [alignUp]; omega, fun n => by simp only [alignUp]; omega,
+           fun k => by simp only [alignUp]; omega, fun k => by simp only [alignUp]; omega⟩
+
+theorem padBound_align16 : PadBound (alignUp 16) 0 15 12 8 :=
+  ⟨by simp only [alignUp]; omega, fun n => by simp only [alignUp]; omega,
+   fun k => by simp only [alignUp]; omega, fun k => by simp only [alignUp]; omega⟩
+
+/-- a header of `H` bytes before every block, blocks aligned to 1, 2, 4 or 8 bytes -/
+theorem padBound_arena8 (A H : Nat) (h : A ∣ 8) : PadBound (fun n => alignUp A n + H) H (7 + H) (4 + H) H := by
+  rcases dvd8_cases A h with rfl | rfl | rfl | rfl <;>
+    exact ⟨by simp only [alignUp]; omega, fun n => by simp only [alignUp]; omega,
+           fun k => by simp only [alignUp]; omega, fun k => by simp only [alignUp]; omega⟩
+
+/-! ## monotonicity of the estimate -/
+
+/-- pointwise order on the three numbers of a dimension -/
+def Dim.le (d e : Dim) : Prop := d.order ≤ e.order ∧ d.nknots ≤ e.nknots ∧ d.naxes ≤ e.naxes
+
+/-- same number of dimensions, pointwise `Dim.le` -/
+def DimsLe : List Dim → List Dim → Prop
+  | [], [] => True
+  | d :: ds, e :: es => Dim.le d e ∧ DimsLe ds es
+  | _, _ => False
+
+theorem DimsLe.length_eq : ∀ {ds es : List Dim}, DimsLe ds es → ds.length = es.length
+  | [], [], _ => rfl
+  | _ :: ds, _ :: es, h => by simp only [List.length_cons]; rw [DimsLe.length_eq (ds := ds) (es := es) h.2]
+  | [], _ :: _, h => h.elim
+  | _ :: _, [], h => h.elim
+
+theorem knotBytes_mono : ∀ {ds es : List Dim}, DimsLe ds es → knotBytes ds ≤ knotBytes es
+  | [], [], _ => Nat.le_refl _
+  | d :: ds, e :: es, h => by
+    have := knotBytes_mono (ds := ds) (es := es) h.2
+    obtain ⟨h1, h2, _⟩ := h.1
+    simp only [knotBytes, List.map_cons, List.sum_cons] at *; omega
+  | [], _ :: _, h => h.elim
+  | _ :: _, [], h => h.elim
+
+theorem prodNaxes_mono : ∀ {ds es : List Dim}, DimsLe ds es → prodNaxes ds ≤ prodNaxes es
+  | [], [], _ => Nat.le_refl _
+  | _ :: ds, _ :: es, h => Nat.mul_le_mul h.1.2.2 (prodNaxes_mono (ds := ds) (es := es) h.2)
+  | [], _ :: _, h => h.elim
+  | _ :: _, [], h => h.elim
+
+/-- the coefficient count `estimateMemory` derives for the convolved dimension is monotone as long as
+    `nknots − order` does not drop -/
+theorem naxesAdj_mono (k o n k' o' n' : Nat) (hk : k ≤ k') (hn : n ≤ n') (hko : k + o' ≤ k' + o) :
+    naxesAdj (nknotsAdj k n) (orderAdj o n) ≤ naxesAdj (nknotsAdj k' n') (orderAdj o' n') := by
+  simp only [naxesAdj, nknotsAdj, orderAdj]
+  rcases Nat.eq_zero_or_pos n with rfl | hn0
+  · simp
+  rcases Nat.eq_zero_or_pos k with rfl | hk0
+  · simp
+  obtain ⟨a, rfl⟩ := Nat.exists_eq_add_of_le hk
+  obtain ⟨c, rfl⟩ := Nat.exists_eq_add_of_le hn
+  have e : (k + a) * (n + c) = k * n + k * c + (a * n + a * c) := by
+    rw [Nat.add_mul, Nat.mul_add, Nat.mul_add]
+  have h1 : c ≤ k * c := Nat.le_mul_of_pos_left c hk0
+  have h2 : a ≤ a * n := Nat.le_mul_of_pos_right a hn0
+  rw [e]; omega
+
+theorem estDim_le (n m : Nat) (hnm : n ≤ m) (d e : Dim) (h : Dim.le d e)
+    (hko : d.nknots + e.order ≤ e.nknots + d.order) : Dim.le (estDim n d) (estDim m e) := by
+  obtain ⟨h1, h2, _⟩ := h
+  refine ⟨?_, ?_, ?_⟩
+  · simp only [estDim, orderAdj]; omega
+  · simp only [estDim, nknotsAdj]; exact Nat.mul_le_mul h2 hnm
+  · exact naxesAdj_mono _ _ _ _ _ _ h2 hnm hko
+
+theorem estDims_le (n m : Nat) (hnm : n ≤ m) :
+    ∀ (c : Nat) (ds es : List Dim), DimsLe ds es →
+      (∀ d e, ds[c]? = some d → es[c]? = some e → d.nknots + e.order ≤ e.nknots + d.order) →
+      DimsLe (adjustAt (estDim n) c ds) (adjustAt (estDim m) c es)
+  | c, [], [], _, _ => by cases c <;> exact True.intro
+  | 0, d :: ds, e :: es, h, hc => ⟨estDim_le n m hnm d e h.1 (hc d e (by simp) (by simp)), h.2⟩
+  | c + 1, _ :: ds, _ :: es, h, hc =>
+    ⟨h.1, estDims_le n m hnm c ds es h.2 (fun d' e' hd he => hc d' e' (by simpa using hd) (by simpa using he))⟩
+  | _, [], _ :: _, h, _ => h.elim
+  | _, _ :: _, [], h, _ => h.elim
+
+/-- **Order on file descriptions** under which `estimateMemory` is monotone: object size, number of auxiliary cards,
+    kernel knots, and the three numbers of every dimension grow (same number of dimensions, same convolved
+    dimension), and in the convolved dimension `nknots − order` (one more than the coefficient count the knot vector
+    implies) does not drop.  For two files the reader accepts the last condition follows from the others
+    (`paramsLe_of_loadable`). -/
+structure ParamsLe (p q : Params) : Prop where
+  objsize : p.objsize ≤ q.objsize
+  naux : p.aux.length ≤ q.aux.length
+  n : p.n ≤ q.n
+  cdim : p.cdim = q.cdim
+  dims : DimsLe p.dims q.dims
+  conv : ∀ d e, p.dims[p.cdim]? = some d → q.dims[p.cdim]? = some e → d.nknots + e.order ≤ e.nknots + d.order
+
+theorem rawSizeWith_closed (naux : Nat) (p : Params) :
+    rawSizeWith naux p =
+      p.objsize + knotBytes (estDims p) + 68 * p.dims.length + 4 * prodNaxes (estDims p) + 146 * naux := by
+  simp only [rawSizeWith, sizeInit, fixedTerms, sumKnotTerms_eq, List.sum_cons, List.sum_nil]
+  omega
+
+theorem estimateWith_mono_raw (naux naux' : Nat) (p q : Params) (h : rawSizeWith naux p ≤ rawSizeWith naux' q) :
+    estimateWith naux p ≤ estimateWith naux' q := by
+  simp only [estimateWith, roundingTerm]; omega
+
+theorem estimate_mono (p q : Params) (h : ParamsLe p q) : estimate p ≤ estimate q := by
+  have hd : DimsLe (estDims p) (estDims q) := by
+    unfold estDims; rw [← h.cdim]
+    exact estDims_le p.n q.n h.n p.cdim p.dims q.dims h.dims h.conv
+  have hk := knotBytes_mono hd
+  have hp := prodNaxes_mono hd
+  have hl := h.dims.length_eq
+  have := h.objsize; have := h.naux
+  apply estimateWith_mono_raw
+  rw [rawSizeWith_closed, rawSizeWith_closed]
+  simp only [nauxCounted]; omega
+
+theorem getElem?_dimsLe : ∀ {ds es : List Dim} (c : Nat) {d e : Dim}, DimsLe ds es → ds[c]? = some d → es[c]? = some e → Dim.le d e
+  | d' :: ds, e' :: es, 0, d, e, h, hd, he => by
+    simp at hd he; subst hd; subst he; exact h.1
+  | _ :: ds, _ :: es, c + 1, d, e, h, hd, he =>
+    getElem?_dimsLe (ds := ds) (es := es) c h.2 (by simpa using hd) (by simpa using he)
+  | [], [], c, _, _, _, hd, _ => by simp at hd
+  | [], _ :: _, _, _, _, h, _, _ => h.elim
+  | _ :: _, [], _, _, _, h, _, _ => h.elim
+
+/-- for two files the reader accepts, the pointwise order is all that is needed -/
+theorem paramsLe_of_loadable (p q : Params) (hp : loadable p = true) (hq : loadable q = true)
+    (h1 : p.objsize ≤ q.objsize) (h2 : p.aux.length ≤ q.aux.length) (h3 : p.n ≤ q.n) (h4 : p.cdim = q.cdim)
+    (h5 : DimsLe p.dims q.dims) : ParamsLe p q :=
+  ⟨h1, h2, h3, h4, h5, fun d e hd he => by
+    have hle := getElem?_dimsLe p.cdim h5 hd he
+    have a := (loadable_dim p hp d (List.mem_of_getElem? hd)).1
+    have b := (loadable_dim q hq e (List.mem_of_getElem? he)).1
+    obtain ⟨_, _, h⟩ := hle
+    omega⟩
+
+/-! ## tightness -/
+
+theorem estimateWith_le (naux : Nat) (p : Params) :
+    estimateWith naux p ≤
+      p.objsize + knotBytes (estDims p) + 68 * p.dims.length + 4 * prodNaxes (estDims p) + 146 * naux + 2048 := by
+  have := rawSizeWith_closed naux p
+  simp only [estimateWith, roundingTerm]; omega
+
+/-- The estimate exceeds what is really live at the end of load-then-convolve (hence the peak) by at most the 2 KB of
+    rounding plus, per auxiliary card, the difference between the 146 bytes assumed and the bytes the card occupies. -/
+theorem estimate_le_peak_plus (p : Params) (hn : 1 ≤ p.n) :
+    estimate p + (8 * p.aux.length + auxBytes p.aux) ≤
+      p.objsize + peak (readEvents p ++ convolveEvents p) + 2048 + 146 * p.aux.length := by
+  have h1 := estimateWith_le (nauxCounted p.aux.length p.nauxKnotsHdu) p
+  rw [estDims_eq_convDims p hn] at h1
+  have h2 := liveAfter_le_peakFrom 0 (readEvents p ++ convolveEvents p)
+  rw [live_after_read_convolve] at h2
+  simp only [estimate, nauxCounted, peak, convolvedBytes] at *
+  omega
+
 end PsV.C19
